@@ -19,6 +19,10 @@ fn find_stage<'a>(p: &'a PropDef, name: &str) -> Option<&'a Stage> {
     p.stages.iter().find(|s| s.name == name)
 }
 
+fn cut(s: &str, n: usize) -> String {
+    s.chars().take(n).collect()
+}
+
 fn main() {
     let args: Vec<String> = std::env::args().collect();
     if args.len() < 3 {
@@ -78,7 +82,15 @@ fn main() {
             continue;
         };
         replayed += 1;
-        let (res, _) = replay_stage(stage, &rf.input, true);
+        let (res, now) = replay_stage(stage, &rf.input, true);
+        // a tape is only as good as the generator that decodes it: say so when a later generator change gave a pinned tape another meaning
+        if let (Input::Tape(_), Some(then), Some(now)) = (&rf.input, &rf.rendered, &now) {
+            if then != now {
+                let note = format!("pinned input {} no longer decodes to the case it was recorded for (the generator changed since); recorded: {} | now: {}", rel, cut(then, 120), cut(now, 120));
+                println!("NOTE: {}", note);
+                rc.notes.push(note);
+            }
+        }
         let open = known.iter().find(|k| k.open && k.property == prop.id && k.replay.as_deref() == Some(rel.as_str()));
         match (res, open) {
             (Err(_), Some(k)) => {
